@@ -21,7 +21,8 @@ RULE = ('One instance whose cache is built by injected responses: each of SRV, T
         'at some instant inside [start, return] and there is at least one address; False => at no instant before the return were an '
         'unexpired SRV (or the given server) and an unexpired address of its target both available (ordering at one instant by '
         'sequence number); cache sufficient at start => returns True at once, transmits nothing, lists all unexpired addresses; first '
-        'query QU then QM unless forced. Non-trivial = an expired-but-unpurged record of a kind that is otherwise missing, or a '
+        'query QU then QM unless forced; a query omits the SRV/TXT question when a fresh answer is held and contains every question '
+        'whose answer is not held unexpired (unless the lookup itself asked it by QM within the last 999 ms). Non-trivial = an expired-but-unpurged record of a kind that is otherwise missing, or a '
         'record arriving within 5 ms of the deadline.')
 ASSUMPTIONS = [
     'no cache-flush bits on injected records (flush handling is C06\'s subject); one SRV identity per instance',
@@ -221,6 +222,7 @@ def check(case: Dict[str, Any]) -> Dict[str, Any]:
         else:
             # a goodbye ends earlier versions of the same identity at its arrival
             avail = [(i, g, a, min(e, l['t']) if i == l['ident'] else e) for i, g, a, e in avail]
+    avail_all = list(avail)
     in_window = [(i, g, a, e) for i, g, a, e in avail if g < ex.g_ret and e > t0]       # arrived before the return, unexpired at/after start
     srvs = [x for x in in_window if x[0][0] == 'SRV']
     gs = case['given_server']
@@ -284,6 +286,49 @@ def check(case: Dict[str, Any]) -> Dict[str, Any]:
                 raise Violation('question type progression wrong (first QU unless QM forced, then QM)',
                                 dict(det, k=k, qu=sorted(qus)), tag='progression')
         classes.append('queries-sent')
+        # (6) which questions are asked: a question whose answer is held fresh (SRV/TXT, less than half its TTL old) is omitted;
+        # a question whose answer is not held at all (absent, withdrawn or expired - purged or not) is asked, unless this very
+        # lookup asked it by QM during the previous 999 ms (duplicate-question suppression of its own question, C13)
+        asked_qm: Dict[Tuple[str, int], float] = {}
+        for k, e in enumerate(queries):
+            m = sim.decode_trace_entry(e)
+            tq = e['t'] * 1000.0
+            qd = {(wire.name_text(q['name']).lower(), q['type']) for q in m['qd']}
+            is_qm = not any(q['cls'] & 0x8000 for q in m['qd'])
+
+            def spans(kind: str, owner: str, fresh: bool) -> List[Tuple[float, float]]:
+                # per record identity the cache keeps one entry whose lifetime is set by the latest arrival: [arrival, expiry) - or
+                # [arrival, half TTL) - from the last copy the harness injected before this query (TTL 0 withdraws)
+                last: Dict[Tuple, Dict[str, Any]] = {}
+                for l in ex.log:
+                    if l['ident'][0] == kind and l['ident'][1] == owner and l['g'] < e['g']:
+                        last[l['ident']] = l
+                return [(l['t'], l['t'] + (500.0 if fresh else 1000.0) * l['ttl']) for l in last.values() if l['ttl'] > 0]
+
+            def surely_fresh(kind: str, owner: str) -> bool:
+                return any(a <= tq - EPS and tq + EPS < end for a, end in spans(kind, owner, True))
+
+            def surely_not_held(kind: str, owner: str) -> bool:
+                return not any(a <= tq + EPS and tq - EPS < end for a, end in spans(kind, owner, False))
+
+            for kind, qtype in (('SRV', 33), ('TXT', 16)):
+                key = (NAME.lower(), qtype)
+                recently = key in asked_qm and tq - asked_qm[key] <= 999 + EPS
+                if surely_fresh(kind, NAME.lower()) and key in qd:
+                    raise Violation(f'lookup asked for the {kind} record although it held a fresh one',
+                                    dict(det, query=k, t=rel(tq), questions=sorted(qd)), tag='asked-although-held:' + kind)
+                if surely_not_held(kind, NAME.lower()) and key not in qd and not (is_qm and recently):
+                    raise Violation(f'lookup did not ask for the {kind} record although it held no unexpired one',
+                                    dict(det, query=k, t=rel(tq), questions=sorted(qd)), tag='not-asked:' + kind)
+            if k == 0:
+                target = (host0 or NAME).lower()
+                for kind, qtype in (('A', 1), ('AAAA', 28)):
+                    if surely_not_held(kind, target) and (target, qtype) not in qd:
+                        raise Violation(f'first query does not ask for the {kind} records of the service host although none is held',
+                                        dict(det, host=target, questions=sorted(qd)), tag='not-asked:' + kind)
+            if is_qm:
+                for key in qd:
+                    asked_qm[key] = tq
     # classes / non-trivial
     pre = case['pre']
     kinds_state = {'srv': [pre['srv']], 'txt': [pre['txt']], 'a': pre['a'], 'aaaa': pre['aaaa']}
